@@ -25,6 +25,13 @@ SpawnWhy(e) ==
   ELSE IF e.gerr # e.nerr \/ ~e.okerr THEN "spawn-stderr"
   ELSE "ok"
 
+\* two Process objects alive at the same time (driver op spawn2): each child's streams and exit code are its own
+Spawn2Why(e) ==
+  IF ~(e.st1 /\ e.st2) THEN "spawn2-not-run"
+  ELSE IF e.sent # e.nin1 \/ e.go1 # e.nout1 \/ ~e.oko1 \/ ~e.jr1 \/ e.xc1 # e.code1 THEN "spawn2-first"
+  ELSE IF e.go2 # e.nout2 \/ ~e.oko2 \/ e.ge2 # e.nerr2 \/ ~e.oke2 \/ ~e.jr2 \/ e.xc2 # e.code2 THEN "spawn2-second"
+  ELSE "ok"
+
 --------------------------------------------------------------------------------
 \* Stand-alone model: the request space that harness/proc is driven through (one state per request), with the
 \* well-formedness conditions the generator has to respect.
